@@ -272,7 +272,7 @@ pub fn main(ctx: &Ctx) {
     ctx.assume("recall is measured ann-benchmarks style: a returned document counts if its f64 reference distance is within the true 10th distance (ties count)");
     ctx.assume("default M / ef_construction and adaptive ef_search; the engine dependency is built with optimisation and debug assertions");
     run_committed_replays(ctx, &C16);
-    run_pbt(ctx, &C16, ctx.tier.pick(24, 400));
+    run_pbt(ctx, &C16, ctx.tier.pick(64, 800));
 }
 
 pub fn replay(ctx: &Ctx, v: &serde_json::Value) -> Option<i32> {
